@@ -13,6 +13,7 @@ import (
 	"path/filepath"
 	"strings"
 	"testing"
+	"time"
 
 	"github.com/bartventer/httpcache"
 	"github.com/bartventer/httpcache/store"
@@ -115,7 +116,9 @@ func TestEncryption(t *testing.T) {
 		{name: "option-empty-key", mustErr: true, open: func(d string) (driver.Conn, error) {
 			return fscache.Open("verif", fscache.WithBaseDir(d), fscache.WithEncryption(""))
 		}},
-		{name: "dsn-bad-base64", mustErr: true, open: func(d string) (driver.Conn, error) { return store.Open(dsn(d, "&encrypt=on&encrypt_key=***notbase64***")) }},
+		{name: "dsn-bad-base64", mustErr: true, open: func(d string) (driver.Conn, error) {
+			return store.Open(dsn(d, "&encrypt=on&encrypt_key=***notbase64***"))
+		}},
 		{name: "dsn-short-key", mustErr: true, open: func(d string) (driver.Conn, error) {
 			return store.Open(dsn(d, "&encrypt=on&encrypt_key="+base64.URLEncoding.EncodeToString([]byte("short"))))
 		}},
@@ -291,59 +294,71 @@ func TestEncryption(t *testing.T) {
 	if thorough {
 		sizes = []int{0, 1, 33, 200, 1500}
 	}
-	for _, n := range sizes {
-		dir, _ := os.MkdirTemp("", "verif-tamper-")
-		conn, err := fscache.Open("verif", fscache.WithBaseDir(dir), fscache.WithEncryption(key32))
-		if err != nil {
-			t.Fatal(err)
-		}
-		val := valueN('T', n)
-		key := "http://a.test/tamper"
-		if err := conn.Set(key, val); err != nil {
-			t.Fatal(err)
-		}
-		var path string
-		var orig []byte
-		for p, f := range rawFiles(dir) {
-			path, orig = p, f
-		}
-		leaks := 0
-		tried := 0
-		try := func(mut []byte, what string) {
-			tried++
-			_ = os.WriteFile(path, mut, 0o644)
-			got, err := conn.Get(key)
+	// every other documented option of the backend is combined with encryption once: options must not weaken it
+	type tamperCfg struct {
+		name string
+		opts []fscache.Option
+	}
+	tcfgs := []tamperCfg{{"plain", nil}, {"update_mtime", []fscache.Option{fscache.WithUpdateMTime(true)}},
+		{"timeouts", []fscache.Option{fscache.WithTimeout(time.Minute), fscache.WithConnectTimeout(time.Minute)}}}
+	for _, tc := range tcfgs {
+		for _, n := range sizes {
+			if tc.name != "plain" && n > 33 {
+				continue
+			}
+			dir, _ := os.MkdirTemp("", "verif-tamper-")
+			conn, err := fscache.Open("verif", append([]fscache.Option{fscache.WithBaseDir(dir), fscache.WithEncryption(key32)}, tc.opts...)...)
+			if err != nil {
+				t.Fatal(err)
+			}
+			val := valueN('T', n)
+			key := "http://a.test/tamper"
+			if err := conn.Set(key, val); err != nil {
+				t.Fatal(err)
+			}
+			var path string
+			var orig []byte
+			for p, f := range rawFiles(dir) {
+				path, orig = p, f
+			}
+			leaks := 0
+			tried := 0
+			try := func(mut []byte, what string) {
+				tried++
+				_ = os.WriteFile(path, mut, 0o644)
+				got, err := conn.Get(key)
+				if err == nil {
+					leaks++
+					add("TAMPER len=%d options=%s %s returned %d bytes without error BAD", n, tc.name, what, len(got))
+				}
+			}
+			for i := range orig {
+				for _, x := range []byte{0x01, 0x80, 0xff} {
+					m := append([]byte(nil), orig...)
+					m[i] ^= x
+					try(m, fmt.Sprintf("flip byte %d ^%#x", i, x))
+				}
+			}
+			for k := 0; k < len(orig); k++ {
+				try(orig[:k], fmt.Sprintf("truncate to %d", k))
+			}
+			try(append(append([]byte(nil), orig...), 0), "extend by one zero byte")
+			try(append(append([]byte(nil), orig...), orig...), "file doubled")
+			try(append(append([]byte(nil), orig[:12]...), orig...), "nonce repeated")
+			// restore and check the wrong key
+			_ = os.WriteFile(path, orig, 0o644)
+			other, err := fscache.Open("verif", append([]fscache.Option{fscache.WithBaseDir(dir), fscache.WithEncryption(key16)}, tc.opts...)...)
+			wrongKeyOK := false
 			if err == nil {
-				leaks++
-				add("TAMPER len=%d %s returned %d bytes without error BAD", n, what, len(got))
+				_, gerr := other.Get(key)
+				wrongKeyOK = gerr != nil
 			}
+			plainReader, _ := fscache.Open("verif", fscache.WithBaseDir(dir))
+			pr, _ := plainReader.Get(key)
+			add("TAMPER len=%d options=%s modifications=%d accepted=%d wrong_key_rejected=%v plaintext_visible_without_key=%v %s",
+				n, tc.name, tried, leaks, wrongKeyOK, n > 3 && bytes.Contains(pr, val), verdict(leaks == 0 && wrongKeyOK && !(n > 3 && bytes.Contains(pr, val))))
+			os.RemoveAll(dir)
 		}
-		for i := range orig {
-			for _, x := range []byte{0x01, 0x80, 0xff} {
-				m := append([]byte(nil), orig...)
-				m[i] ^= x
-				try(m, fmt.Sprintf("flip byte %d ^%#x", i, x))
-			}
-		}
-		for k := 0; k < len(orig); k++ {
-			try(orig[:k], fmt.Sprintf("truncate to %d", k))
-		}
-		try(append(append([]byte(nil), orig...), 0), "extend by one zero byte")
-		try(append(append([]byte(nil), orig...), orig...), "file doubled")
-		try(append(append([]byte(nil), orig[:12]...), orig...), "nonce repeated")
-		// restore and check the wrong key
-		_ = os.WriteFile(path, orig, 0o644)
-		other, err := fscache.Open("verif", fscache.WithBaseDir(dir), fscache.WithEncryption(key16))
-		wrongKeyOK := false
-		if err == nil {
-			_, gerr := other.Get(key)
-			wrongKeyOK = gerr != nil
-		}
-		plainReader, _ := fscache.Open("verif", fscache.WithBaseDir(dir))
-		pr, _ := plainReader.Get(key)
-		add("TAMPER len=%d modifications=%d accepted=%d wrong_key_rejected=%v plaintext_visible_without_key=%v %s",
-			n, tried, leaks, wrongKeyOK, n > 3 && bytes.Contains(pr, val), verdict(leaks == 0 && wrongKeyOK && !(n > 3 && bytes.Contains(pr, val))))
-		os.RemoveAll(dir)
 	}
 
 	// ---- (3) through the transport: a tampered entry is a miss, never served ----
